@@ -204,7 +204,14 @@ example : demo.state = [10, 20] ∧ (demo.tasks 0).results = [1] ∧ (demo.tasks
 
 /-- `shape`: every method of `impl … for SharedCore` takes the lock exactly once and makes exactly one
     inner call, the method of the same name (extracted from src/replication/shared_core.rs). -/
-theorem shape : ∀ m ∈ HC.Generated.shared_methods, m.2.1 = 1 ∧ m.2.2.2 = [m.1] := by decide
+theorem shape : ∀ m ∈ HC.Generated.shared_methods, m.2.1 = 1 ∧ m.2.2.1 ≤ 2 ∧ m.2.2.2 = [m.1] := by decide
+
+/-- `shape_exclusive`: no method touches the shared state other than through that one guard — no call
+    of another wrapper method (which would take the lock a second time), no `try_lock`/owned lock
+    variant, no clone of the `Arc`, no explicit `drop` of the guard, nothing spawned. -/
+theorem shape_exclusive : ∀ m ∈ HC.Generated.shared_other_access, m.2 = 0 := by decide
+
+theorem shape_exclusive_covers : HC.Generated.shared_other_access.map (·.1) = HC.Generated.shared_methods.map (·.1) := by decide
 
 theorem shape_covers : (HC.Generated.shared_methods.map (·.1)) =
     ["info", "key_pair", "verify_and_apply_proof", "missing_nodes", "create_proof", "event_subscribe", "has", "get",
